@@ -1,6 +1,6 @@
-# KF-C15-3 (C15): AsyncMachine(queued='model') keeps one queue per model in _transition_queue_dict keyed by
-# id(model); no __getstate__/__setstate__ re-keys it, so after unpickling every event on every model of the
-# copy raises KeyError (the key is the id of the ORIGINAL model).  Same for the other three async classes.
+# Regression for the former KF-C15-3 (C15), FIXED in /repo by 9fbcaa5 "fix: per-model queues of an async machine
+# survive pickling".  Before the fix AsyncMachine(queued='model') kept _transition_queue_dict keyed by the ORIGINAL
+# id(model) after unpickling and every event on the copy raised KeyError.  This probe asserts the FIXED behaviour.
 import asyncio
 import pickle
 from transitions.extensions import (AsyncMachine, AsyncGraphMachine, HierarchicalAsyncMachine,
@@ -13,15 +13,13 @@ class Model(object):
 
 for cls in (AsyncMachine, AsyncGraphMachine, HierarchicalAsyncMachine, HierarchicalAsyncGraphMachine):
     kw = dict(graph_engine='mermaid') if 'Graph' in cls.__name__ else {}
-    for queued in (True, 'model'):
-        m = cls(model=[Model(), Model()], states=['A', 'B'], initial='A', transitions=[['go', 'A', 'B']],
-                queued=queued, **kw)
+    for queued in (False, True, 'model'):
+        m = cls(model=[Model(), Model()], states=['A', 'B', 'C'], initial='A', queued=queued,
+                transitions=[['go', 'A', 'B'], ['go', 'B', 'C']], **kw)
         m2 = pickle.loads(pickle.dumps(m))
         assert asyncio.run(m.models[0].go()) is True
-        try:
-            res = asyncio.run(m2.models[0].go())
-        except KeyError as e:
-            assert int(str(e)) == id(m2.models[0]) and id(m.models[0]) in m2._transition_queue_dict
-            res = 'KeyError (id of the copy\'s model; the table still has the original\'s id)'
-        print(cls.__name__, 'queued=%r' % queued, '->', res)
-        assert (res is True) == (queued is True)
+        assert asyncio.run(m2.models[0].go()) is True and asyncio.run(m2.models[1].go()) is True
+        if queued == 'model':
+            assert set(m2._transition_queue_dict) == {id(x) for x in m2.models}
+        assert [x.state for x in m2.models] == ['B', 'B'] and [x.state for x in m.models] == ['B', 'A']
+        print(cls.__name__, 'queued=%r' % queued, 'copy works')
